@@ -102,25 +102,134 @@ def run(ctx):
     # pool
     cs = P.fn1("abigail::interned_string_pool::create_string")
     ctx.analysed(cs)
-    maps = [n for n in cs.nodes() if n["k"] == "CXXOperatorCallExpr" and n.get("op") == "[]"]
-    news = [n for n in cs.nodes() if n["k"] == "CXXNewExpr"]
-    guarded = False
-    for n in news:
-        for anc in cs.ancestors(n):
-            if anc["k"] == "IfStmt":
-                c = expr_str(cs, anc["c"][0])
-                guarded = c.replace(" ", "").startswith("!result") or "!result" in c
-                break
-    one_map = len(maps) == 1 and expr_str(cs, call_args(maps[0])[1]) == (cs.params()[0]["n"])
-    ret = [n for n in cs.nodes() if n["k"] == "ReturnStmt"]
-    ret_slot = len(ret) == 1 and "result" in expr_str(cs, ret[0]["c"][0])
-    ctx.ob("R-INTERN/SHAPE", "create_string is lookup-then-insert on one map keyed by the content",
-           one_map and len(news) == 1 and guarded and ret_slot, cs.loc(),
-           "map lookups: %d (key %s); allocations: %d (guarded by a null test of the slot: %s); returns the slot: %s" % (
-               len(maps), expr_str(cs, call_args(maps[0])[1]) if maps else "?", len(news), guarded, ret_slot))
-    empt = any(anc["k"] == "IfStmt" and "empty()" in expr_str(cs, anc["c"][0]) for n in news for anc in cs.ancestors(n))
-    ctx.ob("R-INTERN/SHAPE", "the empty string keeps the null representative", empt, cs.loc(),
-           "the allocation is skipped for an empty content, so \"\" and a default-constructed interned_string share "
-           "the null representative")
+    check_create_string(ctx, cs)
     ctx.assume("orderings of arbitrary string multisets are library behaviour (std::string) and are not re-verified; "
                "strings interned in different pools (environments) are outside the property")
+
+
+
+def check_create_string(ctx, cs):
+    """create_string(content):
+    (a) exactly one container of the pool is consulted, with the content as the key (operator[], insert, emplace or
+        find on a member of priv_), and one allocation site exists;
+    (b) on every path to the return, the pointer handed to interned_string(..) is the slot of that lookup and is
+        either freshly assigned from `new`, known non-null (branch facts), or the content is known to be empty -
+        a slot left null for a non-empty content (earlier failed allocation) is refilled, never handed out;
+    (c) the allocation is not performed for an empty content ("" keeps the null representative that the default
+        constructor uses)."""
+    from engine.cfg import ptr_key, assigned_key
+    cfg = cs.cfg()
+    pname = cs.params()[0]["n"]
+    pid = cs.r["params"][0]
+
+    def is_param(e):
+        e = strip_casts(e)
+        return e is not None and e["k"] == "DeclRefExpr" and e.get("d") == pid
+    lookups = []
+    for n in cs.nodes():
+        if n["k"] == "CXXOperatorCallExpr" and n.get("op") == "[]" and len(call_args(n)) == 2 and is_param(call_args(n)[1]):
+            lookups.append(n)
+        if n["k"] == "CXXMemberCallExpr" and (cs.decl(n) or {}).get("n") in ("insert", "emplace", "find") and \
+                any(is_param(x) for a in call_args(n) for x in walk(a)):
+            lookups.append(n)
+    news = [n for n in cs.nodes() if n["k"] == "CXXNewExpr"]
+    ctx.ob("R-INTERN/SHAPE", "create_string consults one container keyed by the content and has one allocation site",
+           len(lookups) == 1 and len(news) == 1, cs.loc(),
+           "lookups keyed by `%s`: %s; allocations: %d" % (pname, [expr_str(cs, n)[:50] for n in lookups], len(news)))
+    rets = [n for n in cs.nodes() if n["k"] == "ReturnStmt" and n.get("c")]
+
+    def ret_ptr(r):
+        v = strip_casts(r["c"][0])
+        while v is not None and v["k"] in ("CXXConstructExpr", "CXXFunctionalCastExpr", "CXXTemporaryObjectExpr",
+                                           "ExprWithCleanups", "CXXBindTemporaryExpr", "MaterializeTemporaryExpr"):
+            a = call_args(v) if v["k"] in ("CXXConstructExpr", "CXXTemporaryObjectExpr") else v.get("c")
+            if not a or len(a) != 1:
+                break
+            v = strip_casts(a[0])
+        return v
+    # path exploration (the function is tiny): facts = {('nn', key), ('new', key), 'EMPTY'}
+    bad, n_paths = [], 0
+    overwrites = []
+    stack = [(cfg.entry, 0, frozenset())]
+    seen = set()
+    while stack:
+        b, i, facts = stack.pop()
+        blk = cfg.blocks[b]
+        ended = False
+        for e in blk.elems[i:]:
+            k = assigned_key(cs, e)
+            if k is not None:
+                had = facts
+                facts = frozenset(x for x in facts if not (isinstance(x, tuple) and x[1] == k))
+                rhs = None
+                if e["k"] == "BinaryOperator" and e.get("op") == "=":
+                    rhs = strip_casts(e["c"][1])
+                elif e["k"] == "CXXOperatorCallExpr" and e.get("op") == "=" and len(e["c"]) == 3:
+                    rhs = strip_casts(e["c"][2])
+                if rhs is not None and rhs["k"] == "CXXNewExpr":
+                    if not (("null", k) in had or "FRESH" in had):
+                        overwrites.append((e, k))
+                    facts = facts | {("new", k)}
+            if e["k"] == "ReturnStmt" and e.get("c"):
+                n_paths += 1
+                v = ret_ptr(e)
+                key = ptr_key(cs, v) if v is not None else None
+                ok = "EMPTY" in facts or (key is not None and (("nn", key) in facts or ("new", key) in facts))
+                if not ok:
+                    bad.append((e, key, facts))
+                ended = True
+                break
+        if ended:
+            continue
+        br = cfg.branch(b)
+        for idx, s_ in enumerate(blk.succs):
+            if s_ is None or s_ not in cfg.blocks:
+                continue
+            nf = facts
+            if br is not None:
+                nf = facts | frozenset(x for x in cfg.edge_facts(cs, b, idx) if x[0] in ("nn", "null"))
+                for c in cfg.branch_conds(b):
+                    c0, truth = strip_casts(c), idx == 0
+                    while c0 is not None and c0["k"] in ("UnaryOperator", "CXXOperatorCallExpr") and c0.get("op") == "!":
+                        c0, truth = strip_casts(c0["c"][-1]), not truth
+                    if c0 is not None and c0["k"] == "CXXMemberCallExpr" and (cs.decl(c0) or {}).get("n") == "empty" and \
+                            is_param(member_call_object(c0)) and truth:
+                        nf = nf | {"EMPTY"}
+                    if c0 is not None and c0["k"] == "MemberExpr" and (cs.decl(c0) or {}).get("n") == "second" and truth:
+                        nf = nf | {"FRESH"}      # insert(..).second: the key was not there
+            st = (s_, 0, nf)
+            if st not in seen:
+                seen.add(st)
+                stack.append(st)
+    ctx.ob("R-INTERN/SHAPE", "create_string never hands out a null representative for a non-empty content", not bad and n_paths > 0,
+           cs.loc(bad[0][0]) if bad else cs.loc(),
+           "%d path(s) to the return: the slot is freshly allocated, known non-null, or the content is empty" % n_paths if not bad else
+           "a path returns `%s` without that slot having been tested non-null or (re)allocated on it: a slot left null "
+           "under a non-empty key (an allocation that threw after the key was inserted) is handed out as the "
+           "representative - two equal strings stop comparing equal to their own contents" % (bad[0][1] or "?"))
+    ctx.ob("R-INTERN/SHAPE", "create_string allocates a representative only into a slot that holds none", not overwrites,
+           cs.loc(overwrites[0][0]) if overwrites else cs.loc(),
+           "every `slot = new string` is reached with the slot known null (or the key known freshly inserted)" if not overwrites else
+           "`%s` is assigned a new string on a path where it may already hold one: the second intern() of a content gets "
+           "another representative than the first - equal contents, different identity" % overwrites[0][1])
+    empt = False
+    for n in news:
+        w = cfg.where(n)
+        # the allocation is only reached on paths where the content is known non-empty
+        for anc in cs.ancestors(n):
+            if anc["k"] == "IfStmt" and "empty()" in expr_str(cs, anc["c"][0]) and pname in expr_str(cs, anc["c"][0]):
+                empt = True
+    ctx.ob("R-INTERN/SHAPE", "the empty string keeps the null representative", empt or _empty_preregistered(cs), cs.loc(),
+           "the allocation is skipped for an empty content (or \"\" is pre-registered as null by the pool's constructor), so "
+           "\"\" and a default-constructed interned_string share the null representative")
+
+
+def _empty_preregistered(cs):
+    """the pool's constructor maps "" to null, so create_string("") finds an existing entry"""
+    P = cs.unit.program if hasattr(cs.unit, "program") else None
+    for g in cs.unit.functions:
+        if g.cls == "abigail::interned_string_pool" and g.n == "interned_string_pool":
+            txt = " ".join(expr_str(g, n) for n in g.nodes() if n["k"] in ("CXXOperatorCallExpr", "BinaryOperator"))
+            if '""' in txt and ("= 0" in txt or "nullptr" in txt):
+                return True
+    return False
